@@ -443,7 +443,7 @@ func (e *Enc) havocAll(s *State) *State {
 	// keep non-escaping locals and ghost protocol variables marked private
 	names := make([]string, 0)
 	for name := range e.heapSorts {
-		if strings.HasPrefix(name, "L$") || e.frozenHeap(name) {
+		if strings.HasPrefix(name, "L$") || e.frozenHeap(name) || e.ownGhost(name) {
 			names = append(names, name)
 		}
 	}
@@ -462,6 +462,29 @@ func (e *Enc) havocAll(s *State) *State {
 	}
 	e.assumeGlobalInvs(ns)
 	return ns
+}
+
+// ownGhost: ghost variables are changed by ghost hooks only. A ghost variable that only the contract of the function
+// under verification writes (hook assignments or its modifies clause; all variants of the function count as one
+// writer) is therefore not changed by its callees, provided the function is not re-entered through them.
+func (e *Enc) ownGhost(heap string) bool {
+	if !strings.HasPrefix(heap, "G$") || e.fc == nil {
+		return false
+	}
+	name := heap[2:]
+	if _, ok := e.prog.cs.Ghosts[name]; !ok {
+		return false
+	}
+	ws := e.prog.ghostWriters()[name]
+	if len(ws) != 1 {
+		return false
+	}
+	me := e.fc.PkgPath + "." + e.fc.Target
+	if !ws[me] {
+		return false
+	}
+	e.assumed["a ghost variable written only by the hooks of "+e.key+" is not changed by the functions it calls (it is not re-entered through its callees)"] = true
+	return true
 }
 
 // havocNames gives fresh versions to the listed heaps.
